@@ -38,6 +38,9 @@ JudgeDoc(line) ==
   /\ Relate(line.i, "lib-value", o.lib.ok /\ o.lib.val = line.doc)
   /\ Relate(line.i, "test-same", o.test.ok /\ o.test.same = "PASS")
   /\ Relate(line.i, "positions", o.validate.ok /\ got = want)
+  \* the same document handed over inside a payload: positions are counted in the document's own text
+  /\ Relate(line.i, "payload-positions",
+            {<<x.p, x.l, x.c>> : x \in SetOf(o.validate.ppos)} = want)
   \* the SARIF report of the same run: the message of a result names the scalar with its position,
   \* and the region of the result is the (1-based) position of one of the values the message names
   \* (the implementation takes the compared-to value: 1:1 for a literal of the rules file)
